@@ -304,6 +304,7 @@ func (b *book) check(s *session, step int, op jOp, o obsT) {
 			nkeys = len(op.Ids)
 		}
 		zero := int64(0)
+		at := int64(op.Txp)
 		switch {
 		case op.Kind == "keysrecv" || op.HasExtra:
 			if !validatedKeys(op, nkeys) {
@@ -326,9 +327,10 @@ func (b *book) check(s *session, step int, op jOp, o obsT) {
 			if o.Out.Txp != uint64(t.Ptr) || o.Out.Slot != uint64(t.Slot) {
 				s.violate("C19:self-keys-extra", fmt.Sprintf("operation %d: self-produced keys do not carry the slot and pointer of the trigger in flight", step), showOut(o.Out), fmt.Sprintf("slot=%d txp=%d", t.Slot, t.Ptr))
 			}
+			at = t.Ptr
 			b.ptr[int64(op.Eon)] = &bookPtr{Value: t.Ptr + int64(nkeys) - 1, Age: &zero}
 		}
-		b.comparePtrs(s, step, "C19:pointer-after-keys", fmt.Sprintf("after a keys message (eon %d, pointer %d, %d keys) the pointer rows are not as the property says (p+k-1, age 0)", op.Eon, op.Txp, nkeys), o)
+		b.comparePtrs(s, step, "C19:pointer-after-keys", fmt.Sprintf("after a keys message (eon %d, pointer %d, %d keys) the pointer rows are not as the property says (p+k-1, age 0)", op.Eon, at, nkeys), o)
 		return
 	case "restart":
 		for _, r := range b.ptr {
